@@ -303,7 +303,7 @@ def sample_grid_opts(r):
     return o
 
 
-def add_drive(r, case, p=0.6):
+def add_drive(r, case, p=0.6, plot_p=0.1):
     """how the CLI is driven (lessons L2, L7-L11): path spellings, adversarial file names, argument order, a file listed twice,
     a primer run in the same process and directory (other options, other content under the same paths), stale outputs that
     must be overwritten (--no_warnings), exponent notation, an explicit zero offset"""
@@ -316,6 +316,22 @@ def add_drive(r, case, p=0.6):
          "order": "reversed" if r.random() < 0.4 else None, "dup": r.random() < 0.2 and n > 0,
          "primer": r.random() < 0.35, "stale": r.random() < 0.3, "num": r.choice(["repr", "exp"]),
          "explicit_zero": r.random() < 0.3}
+    # options outside the model: they must not change the exports (bit-identical to the plan replay without them)
+    extra = []
+    if r.random() < 0.4:
+        for opt in r.sample(["--full_check", "--show_full_names", "--verbose", "--debug", "--logfile", "--save_table", "--config"], r.randint(1, 3)):
+            extra += {"--logfile": ["--logfile", "run.log"], "--save_table": ["--save_table", "table.csv"],
+                      "--config": ["-c", "no_such_config.json"]}.get(opt, [opt])
+    if r.random() < plot_p:
+        extra += r.choice([["--save_plot", "plots.pdf"], ["--serialize_plot", "plots.bin"], ["--plot"], ["--save_plot", "plots.png", "--plot"]])
+        if r.random() < 0.6:
+            extra.append("--plot_relative_time")
+        if r.random() < 0.7:
+            extra += ["--plot_mode", r.choice(["xy", "xz", "yx", "yz", "zx", "zy", "xyz"])]
+    stamps = [t for tr in case["trajs"] + ([case["ref"]] if case["ref"] else []) for t in tr["stamps"]]
+    if r.random() < 0.04 and case["sub"] != "kitti" and stamps and min(stamps) + min(case["t_offset"], 0.0) > 1.0:
+        extra.append("--save_as_bag")       # ROS time cannot hold negative stamps
+    d["extra"] = extra
     case["drive"] = d
     return case
 
@@ -335,7 +351,7 @@ def spelled(name, how, d):
 
 def gen_cases(ctx):
     for i, c in enumerate(gen_cases_(ctx)):
-        yield c if i < 15 else add_drive(ctx.rng, c)        # the first 15 are the fixed corpus
+        yield c if i < 18 else add_drive(ctx.rng, c, plot_p=0.03 if ctx.thorough else 0.1)        # the first 18 are the fixed corpus
 
 
 def gen_cases_(ctx):
@@ -357,6 +373,12 @@ def gen_cases_(ctx):
     c["tf"].update({"quat": [1.0, 0.0, 0.0, 0.0], "t": [0.0, 0.0, 0.0], "scale": 2.0})
     yield c
     yield build_case(r, dict(base, ref="file", t_offset=0.25, sync=True, t_max_diff=0.3))
+    # plot options together with exports (seeded C15-6 class): plotting happens before exporting and must not touch the trajectories
+    for k, extra in enumerate([["--save_plot", "plots.pdf", "--plot_relative_time"], ["--serialize_plot", "plots.bin", "--plot_relative_time", "--plot_mode", "xy"],
+                               ["--plot", "--plot_relative_time", "--full_check"]]):
+        c = build_case(r, dict(base, sub=["tum", "euroc", "tum"][k], ntraj=[1, 2, 2][k], ref=["file", "none", "listed"][k], save="tum"))
+        c["drive"] = {"extra": extra}
+        yield c
     # merged inputs sharing exact timestamps (segment 2 starts where segment 1 ends; overlapping recordings; duplicate inside a file)
     for k, kind in enumerate(["boundary", "overlap", "within", "boundary"]):
         o = dict(base, sub=["tum", "euroc", "tum", "euroc"][k], ntraj=[2, 3, 2, 2][k], merge=True, ties_force=kind, save=["tum", "both", "tum", "kitti"][k])
@@ -509,7 +531,10 @@ def argv_of(case, d="."):
         a += ["--project_to_plane", case["plane"]]
     if dr.get("stale"):
         a.append("--no_warnings")
-    return a + ["--silent"]
+    extra = list(dr.get("extra") or [])
+    if "--verbose" in extra or "--debug" in extra:
+        return a + extra            # output is captured by the harness
+    return a + extra + ["--silent"]
 
 
 def outputs(d):
@@ -554,7 +579,7 @@ def primer(case, d):
     pc.update(downsample=3, motion_filter=None, merge=False, t_offset=1.5 if pc["sub"] != "kitti" else 0.0, sync=False, align=False,
               correct_scale=False, align_origin=False, n_to_align=-1, plane="xz", invert=not case["invert"], propagate=False,
               save_tum=pc["sub"] != "kitti", save_kitti=True)
-    pc["drive"] = dict(drive_of(case), primer=False, stale=False, dup=False)
+    pc["drive"] = dict(drive_of(case), primer=False, stale=False, dup=False, extra=[])
     use(pc)
     setup_dir(pc, d)
     with in_dir(d):
@@ -590,6 +615,9 @@ def run_evo(case, d):
             res["message"] = str(e)[:200]
         finally:
             logging.disable(logging.NOTSET)
+            if any(x in res["argv"] for x in ("--plot", "--save_plot", "--serialize_plot")):
+                import matplotlib.pyplot as plt
+                plt.close("all")
     res["files"] = outputs(d)
     return res
 
@@ -1283,6 +1311,12 @@ def judge(ctx, case, evo, interp, aux, outs):
             ctx.count("dist", f"drive:{k2}" + (":" + v if isinstance(v, str) else ""))
     if drive_of(case).get("names"):
         ctx.count("dist", "drive:adversarial-names")
+    for tok in drive_of(case).get("extra") or []:
+        if tok.startswith("-"):
+            ctx.count("dist", "unmodelled-option:" + {"-c": "--config"}.get(tok, tok))
+    if drive_of(case).get("stale"):
+        ctx.count("dist", "unmodelled-option:--no_warnings")
+    ctx.count("dist", "unmodelled-option:--silent" if "--silent" in argv_of(case) else "unmodelled-option:(not --silent)")
     if case.get("ties"):
         ctx.count("dist", "merge-shared-stamps:" + case["ties"])
     ctx.count("dist", "ref:" + ("none" if case["ref"] is None else "listed" if case["ref_listed"] else "file"))
@@ -1373,6 +1407,17 @@ def check(ctx):
     cases = list(gen_cases(ctx))
     evaluate(ctx, cases)
     core.shrink_all(ctx, shrink, evaluate, budget=40)
+    modelled = {"correct_scale", "n_to_align", "sync", "transform_left", "transform_right", "propagate_transform", "invert_transform",
+                "ref", "t_offset", "t_max_diff", "merge", "project_to_plane", "downsample", "motion_filter", "align", "align_origin",
+                "save_as_tum", "save_as_kitti"}
+    dests = [row[0] for row in trajoptions.tables()["options"]]
+    used = {k.split(":", 1)[1].lstrip("-") for k in ctx.dist if k.startswith("unmodelled-option:--")}
+    ctx.notes["options_outside_the_model"] = {
+        "asserted_not_to_change_the_exports_in_this_run": sorted(x for x in dests if x not in modelled and x in used),
+        "not_exercised": {x: {"ros_map_yaml": "needs a map image + yaml", "map_tile": "needs contextily and network",
+                              "save_as_bag2": "installed rosbags cannot construct the ROS2 writer the way evo calls it",
+                              "config": "only if drawn this run; run() ignores it (entry_points.merge_config applies it)"}.get(x, "not drawn in this run")
+                          for x in dests if x not in modelled and x not in used}}
     return core.finish(ctx, lean, rule=RULE,
                        open_clauses=["the documented order is itself the specification: theorems state the option -> step wiring over all option sets; "
                                      "the numerical content of each step (Umeyama, association, filters, projection) belongs to C03-C05, C10, C11, C14",
